@@ -216,9 +216,49 @@ def run_policy(ctx, rng, pid):
                     continue
                 ctx.disagree("request under a generated policy vs model", case, diffs[:3], ans["status"] if ans else None)
                 return
+        report_channels(ctx, sim, twin, table, default, user, roots, case0)
     finally:
         sim.close()
         twin.close()
+
+
+REPORT_QUERY = ('<?xml version="1.0"?><C:calendar-query xmlns:D="DAV:" xmlns:C="urn:ietf:params:xml:ns:caldav"><D:prop><D:getetag/><C:calendar-data/></D:prop>'
+                '<C:filter><C:comp-filter name="VCALENDAR"/></C:filter></C:calendar-query>')
+REPORT_ABQUERY = ('<?xml version="1.0"?><CR:addressbook-query xmlns:D="DAV:" xmlns:CR="urn:ietf:params:xml:ns:carddav"><D:prop><D:getetag/><CR:address-data/></D:prop>'
+                  '<CR:filter/></CR:addressbook-query>')
+REPORT_SYNC = '<?xml version="1.0"?><D:sync-collection xmlns:D="DAV:"><D:sync-token/><D:prop><D:getetag/></D:prop></D:sync-collection>'
+REPORT_FREEBUSY = ('<?xml version="1.0"?><C:free-busy-query xmlns:C="urn:ietf:params:xml:ns:caldav"><C:time-range start="20000101T000000Z" end="20500101T000000Z"/>'
+                   '</C:free-busy-query>')
+
+
+def report_channels(ctx, sim, twin, table, default, user, roots, case0):
+    """the other ways of reading a calendar or an address book - calendar-query / addressbook-query with data, sync-collection, free-busy -
+    under the generated policy: object content, names and busy times of a collection appear only with `r` on it, and the answers for
+    collections below a hidden root are those of the twin store (model-independent; the sequential model has no such requests)"""
+    login = (user + ":pw") if user else None
+    for e in sim.real_dump():
+        if not e["tag"] or not e["items"]:
+            continue
+        cp = "/" + "/".join(e["path"]) + "/"
+        perms = table.get((user, tuple(e["path"])), default)
+        kinds = [("sync-collection", REPORT_SYNC)] + ([("calendar-query", REPORT_QUERY), ("free-busy-query", REPORT_FREEBUSY)] if e["tag"] == "VCALENDAR"
+                                                       else [("addressbook-query", REPORT_ABQUERY)])
+        for kind, body in kinds:
+            st, _, text = sim.app.request("REPORT", cp, body, login=login)
+            case = dict(case0, report=kind, collection=cp, permissions_on_it=perms, status=st)
+            ctx.case("report-channel:%s:%s" % (kind, "r" if "r" in perms else "no-r"), sample=case, key=["report-channel", cp, kind, perms, user], nontrivial="r" not in perms)
+            if "r" not in perms:
+                names = [i["href"] for i in e["items"] if not i["href"].startswith("#")]
+                shown = [n for n in names if n in text]
+                if 200 <= st < 300 and (shown or "SUMMARY:c" in text or "FN:c" in text or "FREEBUSY" in text):
+                    ctx.violation("%s on %s shows %s although the policy gives %r no `r` there (permissions %r)"
+                                  % (kind, cp, shown or "object content / busy times", user or "anonymous", perms), case)
+            if any(e["path"][:len(r_)] == r_ for r_ in roots):
+                st2, _, text2 = twin.app.request("REPORT", cp, body, login=login)
+                strip_tok = lambda t: __import__("re").sub(r"<(\w+:)?sync-token>[^<]*</(\w+:)?sync-token>", "", t)     # noqa: E731
+                if (st, strip_tok(text)) != (st2, strip_tok(text2)):
+                    ctx.violation("the answer of %s on %s depends on data inside a subtree where the policy gives the user nothing (status %s vs %s)"
+                                  % (kind, cp, st, st2), case)
 
 
 def witnesses(ctx):
